@@ -101,8 +101,35 @@ func oValidNode(node Node, v *oVal, types map[string]Node, depth int) bool {
 			}
 		}
 		for i, k := range v.keys {
+			declared := false
 			for _, p := range n.Properties.properties {
-				if p.key == k && !oValidNode(p.value, v.items[i], types, depth+1) {
+				if p.key == k {
+					declared = true
+					if !oValidNode(p.value, v.items[i], types, depth+1) {
+						return false
+					}
+				}
+			}
+			// additionalProperties only looks at the `properties` of the SAME
+			// Schema Object (JSON Schema: not at those of allOf subschemas).
+			// Modes this evaluator does not model count as "anything goes".
+			if !declared && n.AdditionalProperties != nil {
+				switch n.AdditionalProperties.mode {
+				case additionalPropertiesFalse:
+					return false
+				case additionalPropertiesUserType:
+					t, ok := types[n.AdditionalProperties.userTypeName]
+					if !ok || !oValidNode(t, v.items[i], types, depth+1) {
+						return false
+					}
+				}
+			}
+		}
+		// allOf: the value is an instance of every referenced conversion as well
+		if n.AllOf != nil {
+			for _, name := range n.AllOf.userTypeNames {
+				t, ok := types[name]
+				if !ok || !oValidNode(t, v, types, depth+1) {
 					return false
 				}
 			}
@@ -164,7 +191,9 @@ func VerifC08_Trees() {
 	e := string([]byte{zzverif.Digit("e")})
 	c := string([]byte{zzverif.OneOf("c", "ab ")})
 	var text string
-	switch zzverif.IntRange("shape", 0, 5) {
+	tU := `"` + c + `"`
+	nullableRoot := false
+	switch zzverif.IntRange("shape", 0, 10) {
 	case 0:
 		text = "{\n  \"a\": " + d + ", // {min: " + e + "}\n  \"b\": \"" + c + "\", // {optional: true}\n  \"c\": [" + d + ", \"" + c + "\"]\n}"
 	case 1:
@@ -175,11 +204,37 @@ func VerifC08_Trees() {
 		text = `{"r": @t, "s": [@t, ` + d + `], "u": @t | @u}`
 	case 4:
 		text = `{"n": null, "o": {"p": ` + d + `.5}} // {nullable: true}`
-	default:
+		nullableRoot = true
+	case 8: // a nullable choice / reference in the shortcut spelling
+		text = `@t | @u // {nullable: true}`
+		nullableRoot = true
+	case 9:
+		text = `@t // {nullable: true}`
+		nullableRoot = true
+	case 10: // QUOTED keys that look like type names are ordinary members
+		text = `{"@t": ` + d + `, "@": "` + c + `", "z": {"@u": true}}`
+	case 5:
 		text = `[]`
+	case 6: // an object with additional properties of a registered type
+		text = `{"p": ` + d + `} // {additionalProperties: "@t"}`
+	default: // inheritance: own + inherited members, additionalProperties written or not on either side
+		apHeir := zzverif.IntRange("apHeir", 0, 1)     // 0 absent, 1 true
+		apParent := zzverif.IntRange("apParent", 0, 1) // 0 absent, 1 true
+		rules := `allOf: "@u"`
+		if apHeir == 1 {
+			rules += `, additionalProperties: true`
+		}
+		text = "{ // {" + rules + "}\n  \"own\": " + d + "\n}"
+		tU = `{"inh": "` + c + `"}`
+		if apParent == 1 {
+			tU += ` // {additionalProperties: true}`
+		}
+		// the conversion writes `additionalProperties: false` for every object
+		// that does not allow them, next to allOf: heir and parent then refuse
+		// each other's members
+		zzverif.Known("C08-allof-additional-properties-false", apHeir == 0 || apParent == 0)
 	}
 	tA := e + ` // {max: 9}`
-	tU := `"` + c + `"`
 	s := jschema.New("root", text)
 	tt := jschema.New("@t", tA)
 	tu := jschema.New("@u", tU)
@@ -202,4 +257,8 @@ func VerifC08_Trees() {
 	astU, _ := tu.GetAST()
 	types := map[string]Node{"@t": newNode(astT), "@u": newNode(astU)}
 	zzverif.Assert(oValidNode(newNode(ast), v, types, 0), "the example is a valid instance of the generated Schema Object tree")
+	if nullableRoot {
+		// one variation the schema's own rules accept: null for a nullable root
+		zzverif.Assert(oValidNode(newNode(ast), &oVal{kind: 'z'}, types, 0), "null is a valid instance of the Schema Object of a nullable schema")
+	}
 }
